@@ -200,7 +200,7 @@ func onlyThisFault(w *World, kind string) bool {
 
 func init() {
 	register(&PropDef{ID: "C04", Level: "fault_enumeration",
-		Rule: "every termination cause {Close on either end, opening-context cancel and deadline, Stop, carrier failure} x {forward, reverse} x {flow control, revision zero} x in-flight RPC sets {none, one per phase, all five phases together} x every quiescent point of the run at carrier/application granularity (quick: the cause alone, D=1; thorough: cause + one further schedule deviation); oracle TERM: no hang, every in-flight call non-OK, every handler context cancelled, Done closed, Err nil iff clean, Serve returned, a later RPC fails, nothing left behind; non-trivial = distinct orders of conflicting accesses",
+		Rule:      "every termination cause {Close on either end, opening-context cancel and deadline, Stop, carrier failure} x {forward, reverse} x {flow control, revision zero} x in-flight RPC sets {none, one per phase, all five phases together} x every quiescent point of the run at carrier/application granularity (quick: the cause alone, D=1; thorough: cause + one further schedule deviation); oracle TERM: no hang, every in-flight call non-OK, every handler context cancelled, Done closed, Err nil iff clean, Serve returned, a later RPC fails, nothing left behind; non-trivial = distinct orders of conflicting accesses",
 		Globals:   []func(*Scenario, *World, *Exec) []Violation{ProtoMonitor},
 		Scenarios: c04Scenarios})
 }
